@@ -65,6 +65,22 @@ def main(driver, gen, names=None):
         d += '        "%s" => { let v = judge_schema!(%s, t); let r = schemas::%s::real(t); (v, r.ok, r.end) }\n' % (n, n, n)
     d += '        _ => panic!("unknown schema"),\n    }\n}\n'
     open(os.path.join(gen, 'dispatch.rs'), 'w').write(d)
+    k = ''
+    for n in disp_names:
+        sd = SCHEMAS[n]
+        if not sd.kani: continue
+        k += '''
+#[kani::proof]
+#[kani::unwind(%(unwind)d)]
+fn k_%(n)s() {
+    let t = any_tables();
+    kani::assume(t.n <= KANI_N && t.n <= schemas::%(n)s::N);
+    kani::assume(schemas::%(n)s::valid(&t));
+    let v = judge_schema!(%(n)s, &t);
+    assert!(v.is_ok(), "generated parser disagrees with the reference semantics");
+}
+''' % dict(n=n, unwind=8)
+    open(os.path.join(gen, 'kani_harnesses.rs'), 'w').write(k)
     json.dump(result, open(os.path.join(gen, 'status.json'), 'w'), indent=1)
     return result
 
